@@ -27,6 +27,7 @@ TB_ROPE_OBS = [
     "`&str` / `&&str` prefix patterns: byte-prefix test (std's implementation is `haystack.as_bytes().starts_with(needle.as_bytes())`), `char` suffix pattern: the string is non-empty and its last char is the pattern; "
     "<str as Index<I>>::index (exposes vstd's own index_postcondition); axiom: `==` on [u8] slices is equality of the byte sequences (std's PartialEq for slices)",
     "rule A1 (contracts/rope_obs.py): `X.iter().all(|(s, _)| E)` -> a `for` loop accumulating the conjunction (E has no side effects); rule P3: `let &(x, _) = &E[i];` -> `let x = E[i].0;`",
+    "unit rope_build: rule G3 instantiates `T: IntoIterator<Item = &str>` at Vec<&str> (only the finite item sequence matters: the body consumes the iterator to the end), rule FM1 turns `.into_iter().filter_map(|c| { if C { return None; } BODY Some(E) }).collect::<Vec<_>>()` into the loop it abbreviates; total length fits usize (requires)",
     "axiom: `==` on str is equality of the bytes (std's PartialEq for str; used by the single-piece arm of Rope == Rope)",
 ]
 
@@ -56,7 +57,7 @@ PLAN = {
     "C17": {
         "level": "proof",
         "witness": mixed_witness,
-        "verus_units": ["codec_dec", "codec_enc", "replace_splice", "replace_helpers", "helpers_tokens", "rope_bounds", "rope_core", "rope_obs"],
+        "verus_units": ["codec_dec", "codec_enc", "replace_splice", "replace_helpers", "helpers_tokens", "rope_bounds", "rope_core", "rope_obs", "rope_build"],
         "extra_stages": [k5_codec_cross],
         "kani": True,
         "technique": "contract-based deductive verification (Verus): overflow/shift/index/termination obligations of the real decoder and encoders under a representation invariant",
@@ -72,7 +73,7 @@ PLAN = {
         "note": "Partial: only the decoder/encoder half of the property. Trusted: Verus/Z3/vstd, extraction rules, assume_specifications listed in evidence.",
         "trusted_base": TB_VERUS + TB_CODEC_ENC + TB_ROPE + TB_ROPE_OBS,
         "assumptions": ["mappings string shorter than u32::MAX - 1 bytes", "encoder input sorted by generated line (any u32 values)", "ReplaceSource: positions on char boundaries or beyond the end, inner text < 4 GiB; in this view the total length of the rope built by ReplaceSource::rope is assumed to fit usize (C05's view proves it from the spliced text fitting usize)"],
-        "not_covered": ["SourceMap::from_json/from_slice/from_reader (simd-json)", "every stream_chunks implementation", "Rope::from_iter / lines / char_indices / hash", "ReplaceSource::stream_chunks / map"],
+        "not_covered": ["SourceMap::from_json/from_slice/from_reader (simd-json)", "every stream_chunks implementation", "Rope::lines / char_indices / hash", "ReplaceSource::stream_chunks / map"],
         "design_ref": "DESIGN.md §4/C17",
     },
     "C11": {
@@ -92,7 +93,7 @@ PLAN = {
     "C19": {
         "level": "proof",
         "witness": c19_witness,
-        "verus_units": ["codec_enc", "rope_core", "with_indices"],
+        "verus_units": ["codec_enc", "rope_core", "rope_build", "with_indices"],
         "extra_stages": [k4_with_indices],
         "kani": True,
         "engine": "verus-extract + kani-scratch",
@@ -103,13 +104,13 @@ PLAN = {
                  "std's contract of char_indices (offsets in order, each a char boundary) enters as an assumed contract (rule W1). The bounded Kani stage K4 (five texts, all index pairs, real iterator chain) stays as a cross-check of W1. "
                  "Unbounded proof (unit rope_core): all six unchecked accessors of rope.rs - data.get_unchecked(i) x3 in get_byte_slice_impl / byte_slice_unchecked and str::get_unchecked x4 in byte_slice_unchecked - are reached only "
                  "within their safety preconditions (index < number of pieces; range in bounds on char boundaries of the piece) for every rope satisfying the representation invariant, every kind of range bound, and - for the "
-                 "unsafe fn - every call that keeps its documented contract; the invariant is established by new/from and preserved by add/append/slicing. "
+                 "unsafe fn - every call that keeps its documented contract; the invariant is established by new/from/from_iter (unit rope_build) and preserved by add/append/slicing. "
                  "Bounded stand-in (Kani): Rope::get_byte_slice / get_byte on degenerate ropes (a multi-piece representation holding no piece) reach no unchecked index, for every range "
-                 "(found and fixed an out-of-bounds get_unchecked). Ropes built by from_iter / lines (not under contract), Rope::char_indices and the lifetime transmutes are not decided.",
+                 "(found and fixed an out-of-bounds get_unchecked). Ropes built by the Lines iterator (not under contract), Rope::char_indices and the lifetime transmutes are not decided.",
         "note": "Partial. The `requires` (all bytes < 128) on from_utf8_unchecked is a strengthening of its documented safety condition (valid UTF-8).",
         "trusted_base": TB_VERUS + TB_CODEC_ENC + TB_ROPE,
-        "assumptions": ["fields < 2^30", "char_indices yields the byte offsets of the chars in order (std's contract; rule W1)", "WithIndices::indices_indexes, when filled, holds that table (it is only written by substring)", "ropes satisfy the representation invariant (proved for new/from/add/append/slices; not for from_iter/lines)"],
-        "not_covered": ["that Rope::from_iter and the Lines iterator establish the representation invariant (iterator adapters / ref patterns)", "Rope::char_indices (the Rope instance of rule W1's assumed contract)", "lifetime-extending transmutes", "concurrent use"],
+        "assumptions": ["fields < 2^30", "char_indices yields the byte offsets of the chars in order (std's contract; rule W1)", "WithIndices::indices_indexes, when filled, holds that table (it is only written by substring)", "ropes satisfy the representation invariant (proved for new/from/from_iter/add/append/slices; not for ropes handed out by the Lines iterator)"],
+        "not_covered": ["that the Lines iterator establishes the representation invariant (ref patterns on struct fields)", "Rope::char_indices (the Rope instance of rule W1's assumed contract)", "lifetime-extending transmutes", "concurrent use"],
         "design_ref": "DESIGN.md §4/C19",
     },
     "C05": {
@@ -137,7 +138,7 @@ PLAN = {
     "C16": {
         "level": "proof",
         "witness": rope_witness,
-        "verus_units": ["rope_core", "rope_obs", "rope_bounds"],
+        "verus_units": ["rope_core", "rope_obs", "rope_build", "rope_bounds"],
         "technique": "contract-based deductive verification (Verus) of the real Rope constructors, mutators, byte lookup, slicing, rendering and the observers is_empty / ends_with / starts_with / == (Rope, str, &str) against the flat string the pieces denote, under a representation invariant, extracted mechanically each run",
         "claim": "Partial, unbounded proof: with bytes() = concatenation of the pieces and the invariant `every piece records its start offset, total fits usize`, the real Rope::new / From<&str> / add / append "
                  "establish or preserve the invariant and denote exactly the concatenated text for every piece division (all four representation combinations of append, shared piece tables through Rc::make_mut); "
@@ -148,11 +149,12 @@ PLAN = {
                  "starts_with(other) exactly when other's text is a byte prefix of this text, in all four representation combinations, for every division of either text into pieces including empty pieces and comparison windows that "
                  "cut multi-byte characters, with termination of the two-cursor loop (five genuine defects found and fixed in these three functions and in Rope == Rope, DESIGN 7). "
                  "Rope == Rope (the two-cursor loop over differently divided texts) and Rope == &str answer exactly whether the two denoted texts are equal, with every byte-slice window in range and termination. "
-                 "Not decided: from_iter, lines, char_indices (the twin's search observes char_indices), hash.",
+                 "Unit rope_build: from_iter over any finite sequence of string slices establishes the invariant and denotes exactly their concatenation (empty slices dropped). "
+                 "Not decided: lines, char_indices (the twin's search observes char_indices), hash.",
         "note": "Partial. Trusted: Verus/Z3/vstd, extraction rules, the assume_specifications and two axioms listed in the evidence; get_byte additionally relies on the pinned std's binary_search_by returning the last match.",
         "trusted_base": TB_VERUS + TB_ROPE + TB_ROPE_OBS,
         "assumptions": ["total rope length fits usize (requires of add/append)", "binary_search_by returns the last of several equal elements (pinned std; used by get_byte only)"],
-        "not_covered": ["Rope::from_iter (iterator adapter chain)", "Lines / CharIndices iterators", "Hash"],
+        "not_covered": ["Lines / CharIndices iterators", "Hash"],
         "design_ref": "DESIGN.md §4/C16",
     },
     "C14": {
